@@ -142,11 +142,19 @@ class _Canon(ast.NodeTransformer):
 
     def visit_If(self, n):
         self.generic_visit(n)
+        # if not not c:  ->  if c:   (only the truth value of a test is used)
+        while isinstance(n.test, ast.UnaryOp) and isinstance(n.test.op, ast.Not) and isinstance(n.test.operand, ast.UnaryOp) \
+                and isinstance(n.test.operand.op, ast.Not):
+            n.test = n.test.operand.operand
+            self.stats['canon_not_not'] = self.stats.get('canon_not_not', 0) + 1
         # if c: pass else: B   ->   if not c: B
         if n.orelse and all(isinstance(x, ast.Pass) for x in n.body):
-            neg = ast.UnaryOp(op=ast.Not(), operand=n.test)
-            ast.copy_location(neg, n.test)
-            n.test = self.visit(neg)
+            if isinstance(n.test, ast.UnaryOp) and isinstance(n.test.op, ast.Not):
+                n.test = n.test.operand
+            else:
+                neg = ast.UnaryOp(op=ast.Not(), operand=n.test)
+                ast.copy_location(neg, n.test)
+                n.test = self.visit(neg)
             n.body, n.orelse = n.orelse, []
             self.stats['canon_if_pass_else'] = self.stats.get('canon_if_pass_else', 0) + 1
             return n
@@ -1176,6 +1184,74 @@ def expand_tables(tree, cls, fn, stats):
     ast.fix_missing_locations(fn)
 
 
+def resolve_name_dispatch(tree, cls, fn, stats):
+    """N8: dynamic dispatch through a constant table of method names,
+
+        h = T.get(K)                      if K in T:
+        if h is not None:        or           getattr(obj, T[K])(...)
+            getattr(obj, h)(...)
+
+    is turned into the if-chain over the keys of T with the attribute spelled out (`obj._parse_isa(...)`), so that the
+    callee is visible to the inliner and to every rule that follows calls.  Runs before inlining."""
+    tabs = {k: v for k, v in _table_defs(tree, cls, fn).items() if all(isinstance(x, ast.Constant) and isinstance(x.value, str) for x in v.values)}
+    if not tabs or not any(isinstance(x, ast.Call) and isinstance(x.func, ast.Name) and x.func.id == 'getattr' for x in ast.walk(fn)):
+        return
+    did = False
+    for owner in ast.walk(fn):
+        for field in ('body', 'orelse', 'finalbody'):
+            blk = getattr(owner, field, None)
+            if not isinstance(blk, list) or len(blk) < 2 or not isinstance(blk[0], ast.stmt):
+                continue
+            i = 0
+            while i + 1 < len(blk):
+                a, b = blk[i], blk[i + 1]
+                i += 1
+                if not (isinstance(a, ast.Assign) and len(a.targets) == 1 and isinstance(a.targets[0], ast.Name) and isinstance(a.value, ast.Call)
+                        and isinstance(a.value.func, ast.Attribute) and a.value.func.attr == 'get' and len(a.value.args) == 1
+                        and _unparse(a.value.func.value) in tabs and is_pure(a.value.args[0])):
+                    continue
+                h = a.targets[0].id
+                if not (isinstance(b, ast.If) and not b.orelse and isinstance(b.test, ast.Compare) and len(b.test.ops) == 1
+                        and isinstance(b.test.ops[0], ast.IsNot) and isinstance(b.test.left, ast.Name) and b.test.left.id == h
+                        and isinstance(b.test.comparators[0], ast.Constant) and b.test.comparators[0].value is None):
+                    continue
+                uses = [x for x in ast.walk(fn) if isinstance(x, ast.Name) and x.id == h]
+                inside = [x for st in b.body for x in ast.walk(st) if isinstance(x, ast.Name) and x.id == h]
+                if len(uses) != len(inside) + 2 or any(isinstance(x.ctx, ast.Store) for x in inside):
+                    continue
+                key = a.value.args[0]
+                # the key expression must not be changed by the body before the use (pure expression over names the body does not store)
+                stored = {x.id for st in b.body for x in ast.walk(st) if isinstance(x, ast.Name) and isinstance(x.ctx, ast.Store)}
+                if stored & {x.id for x in ast.walk(key) if isinstance(x, ast.Name)}:
+                    continue
+                tref = a.value.func.value
+
+                class R(ast.NodeTransformer):
+                    def visit_Name(self, n):
+                        if n.id == h and isinstance(n.ctx, ast.Load):
+                            return ast.copy_location(ast.Subscript(value=clone(tref), slice=clone(key), ctx=ast.Load()), n)
+                        return n
+                body = [R().visit(st) for st in b.body]
+                new = ast.If(test=ast.Compare(left=clone(key), ops=[ast.In()], comparators=[clone(tref)]), body=body, orelse=[])
+                ast.copy_location(new, b)
+                blk[i - 1:i + 1] = [new]
+                did = True
+    if did:
+        ast.fix_missing_locations(fn)
+    expand_tables(tree, cls, fn, stats)
+
+    class G(ast.NodeTransformer):
+        def visit_Call(self, n):
+            self.generic_visit(n)
+            if isinstance(n.func, ast.Name) and n.func.id == 'getattr' and len(n.args) == 2 and not n.keywords \
+                    and isinstance(n.args[1], ast.Constant) and isinstance(n.args[1].value, str) and n.args[1].value.isidentifier():
+                stats['getattr_const'] = stats.get('getattr_const', 0) + 1
+                return ast.copy_location(ast.Attribute(value=n.args[0], attr=n.args[1].value, ctx=ast.Load()), n)
+            return n
+    G().visit(fn)
+    ast.fix_missing_locations(fn)
+
+
 # ---------------------------------------------------------------------------
 # driver
 # ---------------------------------------------------------------------------
@@ -1214,17 +1290,35 @@ def _const_tree(v):
     return False
 
 
+def _const_set(v):
+    """frozenset([...]) / set((...)) / {...} of constants -> the list of element nodes, else None"""
+    if isinstance(v, ast.Set):
+        elts = v.elts
+    elif isinstance(v, ast.Call) and isinstance(v.func, ast.Name) and v.func.id in ('frozenset', 'set') and len(v.args) == 1 \
+            and not v.keywords and isinstance(v.args[0], (ast.List, ast.Tuple, ast.Set)):
+        elts = v.args[0].elts
+    else:
+        return None
+    if elts and all(isinstance(x, ast.Constant) and isinstance(x.value, (str, int)) for x in elts):
+        return elts
+    return None
+
+
 def propagate_module_constants(tree, stats):
     """N6: a module-level name bound exactly once to a string or to a tuple of strings / tuples (immutable) and never
     rebound is replaced by its value inside functions - a template or a table moved to module level reads like the
     literal it stands for"""
     binds = {}
+    sets = {}
     counts = {}
     for st in tree.body:
         if isinstance(st, ast.Assign) and len(st.targets) == 1 and isinstance(st.targets[0], ast.Name):
             counts[st.targets[0].id] = counts.get(st.targets[0].id, 0) + 1
             if _const_tree(st.value):
                 binds[st.targets[0].id] = st.value
+            elif _const_set(st.value) is not None:
+                # a constant set: only its use as the right side of in / not in is replaced (by the tuple of its members)
+                sets[st.targets[0].id] = ast.Tuple(elts=list(_const_set(st.value)), ctx=ast.Load())
     for n in ast.walk(tree):
         if isinstance(n, ast.Global):
             for nm in n.names:
@@ -1232,6 +1326,32 @@ def propagate_module_constants(tree, stats):
         if isinstance(n, ast.Name) and isinstance(n.ctx, (ast.Store, ast.Del)) and n.id in binds:
             # stores other than the one module-level binding
             pass
+    for nm in list(sets):
+        # bound once, never stored to / mutated anywhere in the module
+        bad = counts.get(nm) != 1
+        for x in ast.walk(tree):
+            if isinstance(x, ast.Name) and x.id == nm and isinstance(x.ctx, (ast.Store, ast.Del)) and not any(
+                    isinstance(st, ast.Assign) and st.targets[0] is x for st in tree.body):
+                bad = True
+            if isinstance(x, ast.arg) and x.arg == nm:
+                bad = True
+            if isinstance(x, ast.Call) and isinstance(x.func, ast.Attribute) and isinstance(x.func.value, ast.Name) and x.func.value.id == nm:
+                bad = True
+        if bad:
+            del sets[nm]
+    if sets:
+        class S(ast.NodeTransformer):
+            def visit_Compare(self, n):
+                self.generic_visit(n)
+                if len(n.ops) == 1 and isinstance(n.ops[0], (ast.In, ast.NotIn)) and isinstance(n.comparators[0], ast.Name) \
+                        and n.comparators[0].id in sets:
+                    n.comparators = [ast.copy_location(clone(sets[n.comparators[0].id]), n.comparators[0])]
+                    stats['module_sets_inlined'] = stats.get('module_sets_inlined', 0) + 1
+                return n
+        for f in ast.walk(tree):
+            if isinstance(f, ast.FunctionDef):
+                S().visit(f)
+        ast.fix_missing_locations(tree)
     for nm in list(binds):
         if counts.get(nm) != 1:
             del binds[nm]
@@ -1302,6 +1422,9 @@ def normalize_module(modname, tree, stats, pkg_dir=None):
     # N1 first: the other passes then see canonical tests
     _Canon(stats).visit(tree)
     propagate_module_constants(tree, stats)
+    classes0 = {n.name: n for n in tree.body if isinstance(n, ast.ClassDef)}
+    for q, f, _m in funcs:
+        resolve_name_dispatch(tree, classes0.get(q.split('.')[0]) if '.' in q else None, f, stats)
     if base is not None:
         new = [(q, f, m) for q, f, m in funcs if q not in base]
         if new:
